@@ -92,6 +92,57 @@ class Core:
         self._evfn[adt] = found[0] if len(found) == 1 else None
         return self._evfn[adt]
 
+    def truth_value(self, root, site, kind):
+        """raw value (0/1) of the comparison statement `site` = (body id, block, stmt) for which the semantic condition
+        `kind` ('overflow' | 'oversize' | 'fits' | 'expired') holds - found by exploring both values, so that a test
+        written in negated form (`if !(a > b)`) is read correctly.  None if neither or both values show the behaviour."""
+        key = (root.id, site, kind)
+        if not hasattr(self, '_truth'):
+            self._truth = {}
+        if key in self._truth:
+            return self._truth[key]
+        xid, bi, si = site
+        body = self.prog.bodies[xid]
+        scope = self.scope(root)
+        member = [(x.id, b) for x in scope for b, t in x.calls() if classify(t) == 'S?']
+        selected = [(x.id, b) for x in scope for b, t in x.calls() if classify(t) in ('Q-front', 'Q-at', 'Q-back')]
+        found = [(x.id, b) for x in scope for b, t in x.calls() if classify(t) in ('Sget', 'Sgetmut')]
+        a = {'policy': 0, 'limit': 1 if kind == 'overflow' else 0, 'max_memory': 1 if kind in ('oversize', 'fits') else 0, 'ttl': 1 if kind == 'expired' else 0}
+        shows = {}
+        for v in (0, 1):
+            orc = {(xid, bi, si): v}
+            for s_ in member + selected:
+                orc[s_] = 1
+            if kind == 'expired':
+                for s_ in found:
+                    orc[s_] = 1
+            w = self.weigher(a, orc, root=root)
+            if kind == 'fits':
+                sp = w.spec(body)
+                seg = segment_totals(sp, {bi}, {bi})
+                vecs = [vv for vs in seg.values() for vv in vs]
+                shows[v] = bool(vecs) and all(_vec(x)['S-'] == 0 and _vec(x)['S0'] == 0 for x in vecs)
+            else:
+                sp = w.spec(root)
+                outs = []
+                for n_, vs in sp.path_totals().items():
+                    for vv in vs:
+                        outs.append((sp.return_value(n_), _vec(vv)))
+                if kind == 'overflow':
+                    shows[v] = any(d['S-'] >= 1 for (_, d) in outs)
+                elif kind == 'oversize':
+                    shows[v] = bool(outs) and all(d['cmp:fit'] == 0 for (_, d) in outs)
+                else:
+                    shows[v] = bool(outs) and all(r == 0 for (r, _) in outs)
+        if shows[1] and not shows[0]:
+            r = 1
+        elif shows[0] and not shows[1]:
+            r = 0
+        else:
+            r = None
+        self._truth[key] = r
+        return r
+
     def selectors(self):
         """[(flavour group, policy, body)] of the victim selectors, discovered as the Option-returning scanning functions
         the eviction routine reaches under LFU / ARC / TLRU"""
@@ -200,6 +251,18 @@ def _vec(v):
     return {k: v[i] for k, i in IX.items()}
 
 
+NEGSYM = {'<': '>=', '<=': '>', '>': '<=', '>=': '<'}
+
+
+def sem_form(op, ra, rb, order, truth):
+    """normal form of the *condition* a comparison stands for: as written when the condition holds for the value true,
+    negated when it holds for false (a test used through `!`)"""
+    left, sym, right = normal_form(op, ra, rb, order)
+    if truth == 0:
+        sym = NEGSYM[sym]
+    return left, sym, right
+
+
 # ------------------------------------------------------------------------------------------------
 # lookup scenario table (C06-E1/P1, C15-E1/E2, C07-E1, C08-E1, C03 for lookups, C01-P1 return shape)
 # ------------------------------------------------------------------------------------------------
@@ -234,9 +297,8 @@ def lookup_scenarios(ctx):
                         else:
                             (xid, bi, si, op, ra, rb) = s
                             # value of the comparison such that AGE >= TTL has truth value e
-                            left, sym, right = normal_form(op, ra, rb, ['AGE_SECS', 'TTL'])
-                            val = e if sym in ('>=', '>') else 1 - e
-                            orc[(xid, bi, si)] = val
+                            tv = C.truth_value(get, (xid, bi, si), 'expired')
+                            orc[(xid, bi, si)] = e if tv != 0 else 1 - e
                 w = C.weigher(a, orc, root=get)
                 sp = w.spec(get)
                 tot = sp.path_totals()
@@ -573,8 +635,8 @@ def eviction_rows(ctx):
                 for (xid, bi), lst in C.cmp_sites(fn).items():
                     for (kind, si, op, ra, rb) in lst:
                         if kind == 'cmp:overflow':
-                            left, sym, right = normal_form(op, ra, rb, ['LEN_QUEUE', 'LEN_STORE', 'LIMIT'])
-                            orc[(xid, bi, si)] = 1 if sym in ('>', '>=') else 0
+                            tv = C.truth_value(fn, (xid, bi, si), 'overflow')
+                            orc[(xid, bi, si)] = 1 if tv != 0 else 0
                 w = C.weigher(a, orc)
                 sp = w.spec(fn)
                 outs = set()
@@ -648,7 +710,11 @@ def check_overflow_form(run, ctx):
         for (xid, bi), lst in C.cmp_sites(ev).items():
             for (kind, si, op, ra, rb) in lst:
                 if kind == 'cmp:overflow':
-                    forms.append(normal_form(op, ra, rb, ['LEN_QUEUE', 'LEN_STORE', 'LIMIT']) + (bi,))
+                    tv = C.truth_value(ev, (xid, bi, si), 'overflow')
+                    if tv is None:
+                        run.bad('C04-K1', '%s/unrecognised-form' % flav, 'cannot tell which outcome of the limit comparison in %s leads to an eviction' % ev.name, site=ev.name)
+                        continue
+                    forms.append(sem_form(op, ra, rb, ['LEN_QUEUE', 'LEN_STORE', 'LIMIT'], tv) + (bi,))
         if len(forms) != 1:
             run.bad('C04-K1', '%s/unrecognised-form' % flav, 'expected exactly one comparison of the queue/store length with the limit in %s, found %d' % (ev.name, len(forms)),
                     site=ev.name, oracle='one recognisable overflow test')
@@ -719,15 +785,18 @@ def check_memory_forms(run, ctx):
                     oracle='oversize test NEW_SIZE > MAX_MEM present')
         else:
             (xid, bi, kind, si, op, ra, rb) = over[0]
-            left, sym, right = normal_form(op, ra, rb, ['NEW_SIZE', 'MAX_MEM'])
-            if sym != '>':
+            otv = C.truth_value(fn, (xid, bi, si), 'oversize')
+            left, sym, right = sem_form(op, ra, rb, ['NEW_SIZE', 'MAX_MEM'], otv)
+            if otv is None:
+                run.bad('C05-K1', key + '/unrecognised-form', 'cannot tell which outcome of the size comparison in %s rejects the value' % fn.name, site=fn.name)
+            elif sym != '>':
                 run.bad('C05-K1', key + '/form', 'the oversize test is `%s %s %s` (must be NEW_SIZE > MAX_MEM: a value of exactly max_memory fits)' % (left, sym, right),
                         site='%s (%s)' % (fn.name, ctx.prog.bodies[xid].loc(bi)), oracle='NEW_SIZE > MAX_MEM')
             else:
                 run.ok('C05-K1', key + '/form', 'NEW_SIZE > MAX_MEM')
             # scenario: oversize true => returns with no net entry and no eviction of others
             for val in (1, 0):
-                orc = {(xid, bi, si): (val if SYM[op] in ('>', '>=') and ra == 'NEW_SIZE' or SYM[op] in ('<', '<=') and rb == 'NEW_SIZE' else 1 - val)}
+                orc = {(xid, bi, si): (val if otv != 0 else 1 - val)}
                 for p, lim in [(p_, l_) for p_ in range(6) for l_ in (0, 1)]:
                     aa = {'policy': p, 'limit': lim, 'max_memory': 1, 'ttl': 0}
                     w = C.weigher(aa, orc, root=fn)
@@ -755,7 +824,11 @@ def check_memory_forms(run, ctx):
             (xid, bi, kind, si, op, ra, rb) = fit[0]
             body = ctx.prog.bodies[xid]
             sumrole = ra if ra != 'MAX_MEM' else rb
-            left, sym, right = normal_form(op, ra, rb, [sumrole, 'MAX_MEM'])
+            ftv = C.truth_value(fn, (xid, bi, si), 'fits')
+            left, sym, right = sem_form(op, ra, rb, [sumrole, 'MAX_MEM'], ftv)
+            if ftv is None:
+                run.bad('C05-K2', key + '/unrecognised-form', 'cannot tell which outcome of the total-size comparison in %s ends the eviction loop' % fn.name, site=fn.name)
+                continue
             # placement: is the new entry stored before the loop?
             eff = Effects(ctx.prog)
             root_sites = eff.sites(fn)
@@ -785,11 +858,10 @@ def check_memory_forms(run, ctx):
                     oracle='evict only while the total does not fit, stop as soon as it does')
             # K2 scenario: fit true => no eviction at all
             for val in (1,):
-                fit_true = val if sym in ('<=', '<') else 1 - val
-                raw = fit_true if (SYM[op] in ('<=', '<')) == (ra == left) else 1 - fit_true
-                orc = {(xid, bi, si): raw}
+                orc = {(xid, bi, si): ftv}
                 for (oxid, obi, okind, osi, oop, ora, orb) in over:
-                    orc[(oxid, obi, osi)] = 0 if (SYM[oop] in ('>', '>=')) == (ora == 'NEW_SIZE') else 1
+                    otv2 = C.truth_value(fn, (oxid, obi, osi), 'oversize')
+                    orc[(oxid, obi, osi)] = 0 if otv2 != 0 else 1
                 for p in range(6):
                     aa = {'policy': p, 'limit': 0, 'max_memory': 1, 'ttl': 0}
                     w = C.weigher(aa, orc, root=fn)
@@ -865,8 +937,11 @@ def check_expiry_form(run, ctx):
                     oracle='saturating_sub(now_secs, stored_secs) >= ttl')
         else:
             bi, (kind, si, op, ra, rb) = ex[0]
-            left, sym, right = normal_form(op, ra, rb, ['AGE_SECS', 'TTL'])
-            if sym != '>=':
+            etv = C.truth_value(get, (get.id, bi, si), 'expired')
+            left, sym, right = sem_form(op, ra, rb, ['AGE_SECS', 'TTL'], etv)
+            if etv is None:
+                run.bad('C06-K1', 'async/unrecognised-form', 'cannot tell which outcome of the age comparison in %s treats the entry as expired' % get.name, site=get.name)
+            elif sym != '>=':
                 run.bad('C06-K1', 'async/form', 'the async expiry test is `%s %s %s`; must be AGE_SECS >= TTL' % (left, sym, right), site='%s (%s)' % (get.name, get.loc(bi)), oracle='AGE_SECS >= TTL')
             else:
                 run.ok('C06-K1', 'async/form', 'AGE_SECS >= TTL on whole seconds')
@@ -889,8 +964,11 @@ def check_memory_loop(run, ctx):
         (xid, bi, kind, si, op, ra, rb) = fit[0]
         body = ctx.prog.bodies[xid]
         sumrole = ra if ra != 'MAX_MEM' else rb
-        left, sym, right = normal_form(op, ra, rb, [sumrole, 'MAX_MEM'])
-        fits_raw = lambda truth: truth if (SYM[op] in ('<=', '<')) == (ra == left) else 1 - truth
+        ftv = C.truth_value(fn, (xid, bi, si), 'fits')
+        if ftv is None:
+            run.bad('C05-P1', '%s/fail-closed' % flav, 'fail-closed: cannot tell which outcome of the fit test of %s ends the loop' % fn.name, site=fn.name)
+            continue
+        fits_raw = lambda truth: ftv if truth else 1 - ftv
         member = [(x.id, b) for x in C.scope(fn) for b, t in x.calls() if classify(t) == 'S?']
         selected = [(x.id, b) for x in C.scope(fn) for b, t in x.calls() if classify(t) in ('Q-front', 'Q-at', 'Q-back')]
         for p in range(6):
